@@ -425,7 +425,8 @@ func checkVisibilityRules(p *core.Program, r *core.Report, rule string) {
 		r.Add(rule, "the inline display value is normalised to lower case", p.Pos(gd.Pos()),
 			inlineOutcome == `return strings.ToLower(regexp.Regexp.FindStringSubmatch(`+rxDisplay+`,dom.GetAttribute($0,"style"))[1])`,
 			"display: NONE hides an element like display: none; returned: "+inlineOutcome)
-		for _, t := range []string{"script", "style"} {
+		// (template: its content is inert markup a script may instantiate, never rendered)
+		for _, t := range []string{"script", "style", "template"} {
 			n, okT := 0, true
 			for _, pa := range consistentWith(paths, "dom.TagName($0)", t) {
 				if len(pa.Lits) > 0 && inlineDisplayGiven(pa.Lits[0]) {
